@@ -68,6 +68,8 @@ class MalGen(storegen.HistGen):
             self.live[b] = []
         elif r < 0.93:
             self.ops.append(["create", b, storegen.mk_meta(self.rng, b)])
+        elif r < 0.96:
+            self.ops.append(["lookup", b])  # also of a bucket that does not exist at the moment (and may be created next)
         else:
             self.ops.append(["getbyid", b, self.any_ref(b)])
 
